@@ -71,53 +71,43 @@ def instr_oracle(prog, obs, impl):
             continue
         out = dict(o['out'])
         try:
-            if op['op'] == 'solutionc':
-                # "Add <x unit of solute>, ... to <V unit> of <solvent container>.": the volume taken from the solvent container
-                # and what each named solute gained beyond the share that came with that volume
-                new, s0, s1 = out[op['out']], dumps[op['solventv']], out[op['osolv']]
-                line = out[op['out']]['instr']
-                m = re.match(r"Add (.*) to " + AMOUNT + r" of .+\.$", line)
-                if not m:
-                    fails.append((i, f"cannot read the create_solution instruction {line!r}"))
-                else:
-                    taken = (s0['vol'] - s1['vol']) * F(1, 10**6)
-                    if split_unit(m.group(3))[1] != 'L':
-                        fails.append((i, f"{line!r}: the solvent is stated in {m.group(3)}"))
+            def named_amounts(line, names):
+                """every "<number> <unit> of <name>" in the text, whatever the wording around it: [(value, unit, name)]"""
+                alt = "|".join(re.escape(n) for n in sorted(set(names), key=len, reverse=True))
+                return [(F(Decimal(m.group(1))), m.group(2), m.group(3)) for m in re.finditer(AMOUNT + r" of (" + alt + r")(?![A-Za-z0-9])", line)] if alt else []
+
+            def check_parts(line, parts, true_of, what):
+                for v, u, name in parts:
+                    sd = pick(name, u, v, true_of)
+                    b = {'Solid': 'g', 'Liquid': 'L', 'Enzyme': 'U'}[sd['kind']]
+                    if split_unit(u)[1] != b:
+                        fails.append((i, f"{line!r}: unit {u} for the {sd['kind'].lower()} {name}"))
                     else:
-                        check_amount(F(Decimal(m.group(2))), m.group(3), taken, "the volume taken from the solvent container by create_solution", fails, i)
-                    for part in m.group(1).split(', '):
-                        pm = re.match(AMOUNT + r" of (.+)$", part)
-                        if not pm:
-                            fails.append((i, f"cannot read the amount in {part!r}"))
-                            continue
-                        sd = pick(pm.group(3), pm.group(2), F(Decimal(pm.group(1))), lambda s, b: histcheck.amount_in(
-                            s, new['cont'].get(s['id'], F(0)) - (s0['cont'].get(s['id'], F(0)) - s1['cont'].get(s['id'], F(0))), b))
-                        b = {'Solid': 'g', 'Liquid': 'L', 'Enzyme': 'U'}[sd['kind']]
-                        added = new['cont'].get(sd['id'], F(0)) - (s0['cont'].get(sd['id'], F(0)) - s1['cont'].get(sd['id'], F(0)))
-                        if split_unit(pm.group(2))[1] != b:
-                            fails.append((i, f"{part!r}: unit {pm.group(2)} for a {sd['kind']}"))
-                        else:
-                            check_amount(F(Decimal(pm.group(1))), pm.group(2), histcheck.amount_in(sd, added, b), f"{sd['name']} added by create_solution", fails, i)
+                        check_amount(v, u, true_of(sd, b), f"{name} {what}", fails, i)
+            if op['op'] == 'solutionc':
+                # the line names each solute with its amount and the solvent container with the volume taken from it (whatever the wording):
+                # the volume the container loses, and what each named solute gained beyond the share that came with that volume
+                new, s0, s1 = out[op['out']], dumps[op['solventv']], out[op['osolv']]
+                line = new['instr']
+                taken = (s0['vol'] - s1['vol']) * F(1, 10**6)
+                vol = named_amounts(line, [s0['name']]) or [(v, u, None) for v, u in parse_amounts(line)[-1:] if split_unit(u)[1] == 'L']
+                if vol:
+                    v, u, _ = vol[-1]
+                    if split_unit(u)[1] != 'L':
+                        fails.append((i, f"{line!r}: the solvent is stated in {u}"))
+                    else:
+                        check_amount(v, u, taken, "the volume taken from the solvent container by create_solution", fails, i)
+                check_parts(line, named_amounts(line, [byid[s]['name'] for s in op['solutes']]),
+                            lambda s, b: histcheck.amount_in(s, new['cont'].get(s['id'], F(0)) - (s0['cont'].get(s['id'], F(0)) - s1['cont'].get(s['id'], F(0))), b),
+                            "added by create_solution")
             if (op['op'] == 'newc' and op.get('init')) or op['op'] == 'solution':
-                line = out[op['out']]['instr']
                 d = out[op['out']]
-                m = re.match(r"Add (.*?) to a", line)
-                if m:
-                    held = [s for s, a in d['cont'].items() if a > 0]
-                    if len(m.group(1).split(', ')) != len(held):
-                        fails.append((i, f"the new container holds {len(held)} substances, its instruction names {len(m.group(1).split(', '))}: {line!r}"))
-                    for part in m.group(1).split(', '):
-                        pm = re.match(AMOUNT + r" of (.+)$", part)
-                        if not pm:
-                            fails.append((i, f"cannot read the amount in {part!r}"))
-                            continue
-                        sd = pick(pm.group(3), pm.group(2), F(Decimal(pm.group(1))), lambda s, b: histcheck.amount_in(s, d['cont'].get(s['id'], F(0)), b))
-                        b = {'Solid': 'g', 'Liquid': 'L', 'Enzyme': 'U'}[sd['kind']]
-                        true = histcheck.amount_in(sd, d['cont'].get(sd['id'], F(0)), b)
-                        if split_unit(pm.group(2))[1] != b:
-                            fails.append((i, f"{part!r}: unit {pm.group(2)} for a {sd['kind']}"))
-                        else:
-                            check_amount(F(Decimal(pm.group(1))), pm.group(2), true, f"{sd['name']} in a new container", fails, i)
+                line = d['instr']
+                parts = named_amounts(line, [s['name'] for s in subs])
+                held = [s for s, a in d['cont'].items() if a > 0]
+                if parts and len(parts) != len(held):
+                    fails.append((i, f"the new container holds {len(held)} substances, its instruction names {len(parts)}: {line!r}"))
+                check_parts(line, parts, lambda s, b: histcheck.amount_in(s, d['cont'].get(s['id'], F(0)), b), "in a new container")
             if op['op'] == 'transfer' and 'c' in op['src'] and 'c' in op['dst']:
                 line = out[op['odst']]['instr'].splitlines()[-1]
                 am = parse_amounts(line)
@@ -235,10 +225,11 @@ def recipe_instr_oracle(prog, rg, out, rec):
     for k, (st, step) in enumerate(zip(prog['steps'], rec.steps)):
         if st['op'] in ('fill', 'dilute') and (st['op'] == 'dilute' or 'c' in st['t']):
             name = st['name'] if st['op'] == 'dilute' else st['t']['c']
-            m = re.search(r"by adding " + AMOUNT, step.instructions)
-            if not m:
-                fails.append(f"step {k}: no amount in {step.instructions!r}")
+            # the amount added is the last "<number> <unit>" of the step's text (the target comes before it), whatever the wording
+            am_ = list(re.finditer(AMOUNT, step.instructions))
+            if not am_:
                 continue
+            m = am_[-1]
             sd = byid[st['solvent']]
             before = recipes.ledger_state(rg.initial, H, k - 1, name)
             after = recipes.ledger_state(rg.initial, H, k, name)
@@ -255,7 +246,7 @@ def recipe_instr_oracle(prog, rg, out, rec):
             after = recipes.ledger_state(rg.initial, H, k, name)
             nc = after['cols']
             stated = {}
-            for m in re.finditer(AMOUNT + r" to \[([^\]]*)\]", step.instructions):
+            for m in re.finditer(AMOUNT + r"\s+\w+\s+\[([^\]]*)\]", step.instructions):     # "<amount> to [wells]", whatever the preposition
                 v, u = F(Decimal(m.group(1))), m.group(2)
                 for item in m.group(3).split(', '):
                     ends = [re.match(r"([A-Z])(\d+)$", x) for x in item.split(':')]
